@@ -438,7 +438,7 @@ func (sp *Specs) parseClause(fs *FuncSpec, w, rest, path string, line int) error
 			return nil
 		}
 		for _, it := range splitTop(rest) {
-			if strings.HasPrefix(it, "[]") || strings.HasPrefix(it, "map[") {
+			if strings.HasPrefix(it, "[]") || strings.HasPrefix(it, "map[") || strings.HasPrefix(it, "cell:") {
 				fs.Modifies = append(fs.Modifies, &Expr{Kind: "class", Name: it})
 				continue
 			}
